@@ -3,6 +3,8 @@ package main
 import (
 	"bufio"
 	"bytes"
+	"encoding"
+	"encoding/json"
 	"errors"
 	"fmt"
 	"io"
@@ -125,6 +127,9 @@ func keepString(s string) {
 }
 
 func recheckStrings() {
+	if len(keptStrs) > 0 {
+		settle()
+	}
 	bad := 0
 	for i := range keptStrs {
 		same := keptStrs[i] == string(keptStrCopies[i])
@@ -181,6 +186,9 @@ func recToSeed(m, p string, alias bool, extra Event) (seed []byte) {
 			s2 = bip39.MnemonicToSeed(m, p)
 		}
 	})
+	if alias {
+		settle() // collections and finalizers run while the caller holds the seed: it is still the seed afterwards
+	}
 	e := Event{"op": "ToSeed", "m": units(string(mb)), "p": units(string(pb)), "seed": ints(s1), "len": len(s1), "cap": cap(s1), "aliased": false, "alias_checked": alias,
 		"in_same": m == string(mb) && p == string(pb)}
 	seed = append([]byte(nil), s1...)
@@ -223,6 +231,9 @@ func recToSeedHuge(m, p string, desc string) {
 
 // recheckSeeds: every seed returned earlier still has the value it had at return.
 func recheckSeeds() {
+	if len(keptSeeds) > 0 {
+		settle()
+	}
 	recheckStrings()
 	recheckErrs()
 	for i := range keptSeeds {
@@ -236,7 +247,39 @@ func recString(n int64, extra Event) (s string) {
 	o := guarded(func() { s = bip39.Language(n).String() })
 	emit(merge(o.into(Event{"op": "String", "n": bigRec(n), "out": units(s)}), extra))
 	keepString(s)
+	if !concMode && (n >= -3 && n <= 13 || n%4099 == 0) {
+		probeLanguageValue(n, extra)
+	}
 	return
+}
+
+// probeLanguageValue uses a Language value the way values travel through programs: printed by fmt, and - should the
+// type offer them - through encoding.TextMarshaler / json.Marshaler / fmt.GoStringer, with the result used as callers
+// use such results (appended to).  What fmt prints for %v and %s is the name and is logged as such; the names are
+// asked for again by the calls that follow.
+func probeLanguageValue(n int64, extra Event) {
+	v := bip39.Language(n)
+	var viaV, viaS string
+	o := guarded(func() {
+		viaV, viaS = fmt.Sprintf("%v", v), fmt.Sprintf("%s", v)
+		if tm, ok := interface{}(v).(encoding.TextMarshaler); ok {
+			if b, err := tm.MarshalText(); err == nil {
+				b = append(b, ": "...)
+				_ = append(b[:len(b)-2], '\n')
+			}
+		}
+		if jm, ok := interface{}(v).(json.Marshaler); ok {
+			if b, err := jm.MarshalJSON(); err == nil {
+				_ = append(b, ',')
+			}
+		}
+		if gs, ok := interface{}(v).(fmt.GoStringer); ok {
+			_ = gs.GoString()
+		}
+		_, _ = json.Marshal(v)
+	})
+	emit(merge(o.into(Event{"op": "String", "n": bigRec(n), "out": units(viaV), "via": "fmt%v"}), extra))
+	emit(merge(Event{"op": "String", "n": bigRec(n), "out": units(viaS), "via": "fmt%s", "panicked": false, "timeout": false}, extra))
 }
 
 // ---- randomness sources -------------------------------------------------
@@ -317,6 +360,7 @@ type scriptReader struct {
 	pattern string        // "" = seeded random bytes; otherwise a fixed shape of output
 	chunk   int           // > 0: a working source that never hands out more than this many bytes per Read
 	delay   time.Duration // > 0: a working source that is slow to answer (every Read takes this long)
+	gc      bool          // collections (and finalizers) run between the pieces of a delivery
 }
 
 func (s *scriptReader) produce(k int) []byte {
@@ -370,6 +414,15 @@ func (s *scriptReader) Read(p []byte) (int, error) {
 	if s.delay > 0 {
 		time.Sleep(s.delay)
 	}
+	if s.gc && s.total > 0 {
+		settle()
+	}
+	if st.Err == "panic" { // a source with a defect of its own: it panics instead of returning
+		if !s.quiet {
+			emit(Event{"op": "Read", "asked": len(p), "gave": 0, "bytes": []int{}, "errkind": "panic"})
+		}
+		panic("verif: injected panic inside the source's Read")
+	}
 	b := s.produce(k)
 	copy(p, b)
 	s.total += k
@@ -413,6 +466,12 @@ func recNewMnemonic(n int64, lang int64, extra Event) (out string, err error) {
 	n, lang = narrow(n), narrow(lang)
 	emit(merge(Event{"op": "NewMnemonicCall", "n": bigRec(n), "lang": langField(lang)}, extra))
 	o := guarded(func() { out, err = bip39.NewMnemonic(int(n), bip39.Language(lang)) })
+	if o.panicked && strings.Contains(o.panicTxt, "verif: injected panic") {
+		// the SOURCE panicked (a defect of the caller's reader, not of the library) and the caller recovered, as a
+		// request handler does: nothing is claimed about this call - but the calls that follow must work
+		emit(merge(Event{"op": "NewMnemonicAborted", "n": bigRec(n), "lang": langField(lang)}, extra))
+		return
+	}
 	e := Event{"op": "NewMnemonic", "n": bigRec(n), "lang": langField(lang), "out": units(out), "err": errRec(err), "errid": errID(err)}
 	emit(merge(o.into(e), extra))
 	keepString(out)
